@@ -299,6 +299,7 @@ func (m *mp) runPass(c *kit.Ctx, label string, markedIDs map[string]bool, world 
 	for p, e := range res.PodErrors {
 		out.Errors[p.Namespace+"/"+p.Name] = e.Error()
 	}
+	m.witnessNewClaims(c, res, label, world)
 	// distribution
 	c.Count("pass." + label)
 	for _, o := range out.Obs {
@@ -328,6 +329,10 @@ func (m *mp) runPass(c *kit.Ctx, label string, markedIDs map[string]bool, world 
 // ---------------------------------------------------------------- known-finding shapes
 
 const (
+	// the in-flight node of a NodeClaim is taken by OTHER pods in the next pass (existing nodes are tried in name order,
+	// the claims of the first pass were filled in pod-count order), so a pod the claim was created for is displaced and
+	// gets a second NodeClaim although its own claim would still admit all the pods it was created for
+	kfDisplacement   = "rerun-displaces-pods-from-their-in-flight-nodeclaim"
 	kfUndefinedLabel = "existing-node-undefined-label-after-notin"
 	kfCollapse       = "contradictory-constraints-collapse-to-doesnotexist"
 )
@@ -335,6 +340,55 @@ const (
 func positive(op string) bool { return op != "NotIn" && op != "DoesNotExist" }
 
 func kfPass(out *passOut, qpods []qpodDump) string { return "" }
+
+// firstTermKeys lists the constraints of the pod's node selector and FIRST required term (what CanAdd looks at).
+func firstTermExprs(p *corev1.Pod) []corev1.NodeSelectorRequirement {
+	var out []corev1.NodeSelectorRequirement
+	for k, v := range p.Spec.NodeSelector {
+		out = append(out, corev1.NodeSelectorRequirement{Key: k, Operator: corev1.NodeSelectorOpIn, Values: []string{v}})
+	}
+	if a := p.Spec.Affinity; a != nil && a.NodeAffinity != nil && a.NodeAffinity.RequiredDuringSchedulingIgnoredDuringExecution != nil {
+		if ts := a.NodeAffinity.RequiredDuringSchedulingIgnoredDuringExecution.NodeSelectorTerms; len(ts) > 0 {
+			out = append(out, ts[0].MatchExpressions...)
+		}
+	}
+	return out
+}
+
+// witnessNewClaims: the pod that opened a new NodeClaim must be rejected by the REAL CanAdd of every existing /
+// in-flight node of the pass, evaluated at the end of the pass (requirements only narrow and resources only shrink
+// during a pass, so a node that rejected the pod when it was tried still rejects it).  The one known exception is
+// C01's finding existing-node-undefined-label-after-notin (a later `k NotIn` pod makes key k "defined" on the node).
+func (m *mp) witnessNewClaims(c *kit.Ctx, res psched.Results, label string, world int) {
+	all := !m.cfg.IgnorePreferences
+	for _, nc := range res.NewNodeClaims {
+		opener := nc.Pods[0]
+		for _, en := range res.ExistingNodes {
+			q := opener.DeepCopy()
+			if _, _, err := en.CanAdd(m.ctx, q, podData(q, all), scheduling.Volumes{}, nil); err != nil {
+				c.Count("witness.existing-node-rejects-opener")
+				continue
+			}
+			key := ""
+			labels := en.Labels()
+			for _, x := range firstTermExprs(opener) {
+				if _, ok := labels[x.Key]; ok || !positive(string(x.Operator)) {
+					continue
+				}
+				for _, other := range en.Pods {
+					for _, y := range firstTermExprs(other) {
+						if y.Key == x.Key && y.Operator == corev1.NodeSelectorOpNotIn {
+							key = kfUndefinedLabel
+						}
+					}
+				}
+			}
+			c.Count("witness.existing-node-ACCEPTS-opener")
+			c.Fail(c.NextID(), fmt.Sprintf("real ExistingNode.CanAdd of %s accepts pod %s/%s, which was placed on a new NodeClaim (pass %s)", en.Name(), opener.Namespace, opener.Name, label), key,
+				map[string]interface{}{"kind": "witness", "world": world, "stage": label, "node": en.Name(), "nodeLabels": labels, "pod": dumpPodK(opener), "podsPlacedOnNode": lo.Map(en.Pods, func(p *corev1.Pod, _ int) sk.PodDump { return dumpPodK(p) }), "kf_key": key})
+		}
+	}
+}
 
 // ---------------------------------------------------------------- joint re-admission on the in-flight node
 
@@ -355,14 +409,14 @@ func podData(p *corev1.Pod, all bool) *psched.PodData {
 // rerunClaim offers the pods the NodeClaim was created for, in their original order and with their original specs,
 // to the REAL ExistingNode the scheduler builds for that claim now (trySchedule's loop restricted to this node:
 // CanAdd, Relax on failure).  Emits a CRerun case.
-func (m *mp) rerunClaim(c *kit.Ctx, claim string, podKeys []string, stage string, world int) {
+func (m *mp) rerunClaim(c *kit.Ctx, claim string, podKeys []string, stage string, world int) bool {
 	s, _, nodes, err := m.probe()
 	if err != nil || s == nil {
-		return
+		return true
 	}
 	nc := &v1.NodeClaim{}
 	if err := m.cl.Get(m.ctx, client.ObjectKey{Name: claim}, nc); err != nil {
-		return
+		return true
 	}
 	var en *psched.ExistingNode
 	for _, e := range s.VerifC04ExistingNodes() {
@@ -378,7 +432,7 @@ func (m *mp) rerunClaim(c *kit.Ctx, claim string, podKeys []string, stage string
 	}
 	if en == nil || sn == nil {
 		c.Count("rerun.claim-not-active")
-		return
+		return true
 	}
 	all := !m.cfg.IgnorePreferences
 	prefs := &psched.Preferences{ToleratePreferNoSchedule: s.VerifC04ToleratePreferNoSchedule()}
@@ -433,6 +487,7 @@ func (m *mp) rerunClaim(c *kit.Ctx, claim string, podKeys []string, stage string
 	}
 	raw, _ := json.Marshal([]interface{}{d, pods})
 	c.AddCase(term, in, "rerun|"+string(raw))
+	return realOK
 }
 
 func (m *mp) kfRerun(nc *v1.NodeClaim, li *launchInfo, pods []sk.PodDump, firstErr string) string { return "" }
@@ -684,11 +739,18 @@ func runWorld(c *kit.Ctx, r *kit.Rand, idx int) {
 			return
 		}
 		// pods whose capacity is still starting must not get another NodeClaim
+		hadHome := map[string]bool{} // placed in the first pass on capacity that still counts
+		for _, o := range p0.Obs {
+			if o.Kind == "existing" {
+				hadHome[o.Key] = true
+			}
+		}
 		served := map[string]string{}
 		for n, ks := range claimPods {
 			if !m.deleted[n] && stage[n] >= 1 {
 				for _, k := range ks {
 					served[k] = n
+					hadHome[k] = true
 				}
 			}
 		}
@@ -703,17 +765,65 @@ func runWorld(c *kit.Ctx, r *kit.Rand, idx int) {
 				again = append(again, k)
 			}
 		}
-		if len(again) > 0 {
-			c.Count("rerun.pass-opened-capacity-again")
-		} else {
-			c.Count("rerun.pass-reused-in-flight-capacity")
-		}
-		for _, n := range live {
-			if !m.deleted[n] {
-				m.rerunClaim(c, n, claimPods[n], stageName(stage[n]), idx)
+		if len(again) > 0 && os.Getenv("C04_DEBUG") != "" {
+			fmt.Fprintf(os.Stderr, "AGAIN world %d round %d again=%v deleted=%v extraAt=%d\n", idx, round, again, m.deleted, extraAt)
+			for _, o := range pk.Obs {
+				fmt.Fprintf(os.Stderr, "   %s -> %s %s (was %s)\n", o.Key, o.Kind, o.ID, served[o.Key])
+			}
+			for k, e := range pk.Errors {
+				fmt.Fprintf(os.Stderr, "   %s -> error %.80s (was %s)\n", k, e, served[k])
 			}
 		}
-		_ = again
+		allJoint := true
+		for _, n := range live {
+			if !m.deleted[n] {
+				if !m.rerunClaim(c, n, claimPods[n], stageName(stage[n]), idx) {
+					allJoint = false
+				}
+			}
+		}
+		if len(again) == 0 {
+			c.Count("rerun.pass-reused-in-flight-capacity")
+			continue
+		}
+		c.Count("rerun.pass-opened-capacity-again")
+		// who sits on the in-flight nodes now?
+		onNode := map[string][]string{} // NodeClaim name -> pods placed on its node in this pass
+		for _, en := range pk.Results.ExistingNodes {
+			if en.NodeClaim != nil {
+				for _, p := range en.Pods {
+					onNode[en.NodeClaim.Name] = append(onNode[en.NodeClaim.Name], p.Namespace+"/"+p.Name)
+				}
+			}
+		}
+		// A pod that had no capacity in the first pass (it failed then, arrived later, or sat on a claim that is being
+		// deleted) and now lands on an in-flight node adds to the demand: new capacity for the pod it displaces is justified.
+		// Only a pure reshuffle (every intruder had a home that still exists) is capacity opened for nothing.
+		displaced, justified := true, false
+		for _, k := range again {
+			own := claimPods[served[k]]
+			_, intruders := lo.Difference(own, onNode[served[k]])
+			if len(intruders) == 0 {
+				displaced = false
+			}
+			for _, q := range intruders {
+				if !hadHome[q] {
+					justified = true
+				}
+			}
+		}
+		if allJoint && displaced && justified {
+			c.Count("rerun.new-capacity-justified-by-newly-placed-pods")
+			continue
+		}
+		key := ""
+		if allJoint && displaced {
+			key = kfDisplacement
+			c.Count("kf-shape." + key)
+		}
+		c.Fail(c.NextID(), fmt.Sprintf("pass %s opens new capacity (or fails) for pods whose NodeClaim is still starting: %v", labels[round], again), key,
+			map[string]interface{}{"kind": "rerun-pass", "world": idx, "stage": labels[round], "podsServedAgain": again, "createdFor": served, "podsOnInFlightNodes": onNode,
+				"everyClaimReadmitsItsOwnPods": allJoint, "placements": pk.Obs, "errors": pk.Errors, "stateNodes": pk.SNs, "kf_key": key})
 	}
 }
 
